@@ -251,6 +251,56 @@ def run(ctx: Ctx):
                  "is_done() must be `position >= len(buffer)`; otherwise a decode loop runs "
                  "past the end or stops early")
 
+    # the decoders read the bytes they were given and no others: what an Unpacker is built over is
+    # the received buffer (a parameter, self.payload) or a slice of it - never a buffer that was
+    # lengthened, padded or re-assembled, from which AVPs would be decoded that occupy more bytes
+    # than were supplied
+    n_up = 0
+    for m in model.modules.values():
+        if ".message" not in m.name:
+            continue
+        for f in list(m.funcs.values()) + [f_ for c in m.classes.values() for f_ in c.all_funcs]:
+            ups = [n for n in A.walk_no_nested(f.node) if isinstance(n, ast.Call)
+                   and A.call_name(n).split(".")[-1] == "Unpacker"]
+            if not ups:
+                continue
+            params = {a.arg for a in f.node.args.args + f.node.args.kwonlyargs}
+
+            def supplied(e, depth=0) -> bool:
+                if isinstance(e, ast.Subscript):
+                    return supplied(e.value, depth)
+                if A.dotted(e) == "self.payload":
+                    return True
+                if isinstance(e, ast.Call) and A.call_name(e) in ("bytes", "memoryview") and len(e.args) == 1:
+                    return supplied(e.args[0], depth)
+                if isinstance(e, ast.Name):
+                    defs = [d.value for d in A.walk_no_nested(f.node)
+                            if isinstance(d, (ast.Assign, ast.AnnAssign)) and d.value is not None
+                            and any(isinstance(t, ast.Name) and t.id == e.id for t in A.store_targets(d))]
+                    aug = [d for d in A.walk_no_nested(f.node) if isinstance(d, ast.AugAssign)
+                           and isinstance(d.target, ast.Name) and d.target.id == e.id]
+                    if aug:
+                        return False
+                    if not defs:
+                        return e.id in params
+                    return depth < 4 and all(supplied(v, depth + 1) for v in defs) \
+                        and (e.id in params or True)
+                return False
+            for u in ups:
+                n_up += 1
+                cons = f"{f.qualname}:unpacker-over-supplied-bytes"
+                ctx.inst(cons)
+                ctx.use(f)
+                if len(u.args) != 1 or not supplied(u.args[0]):
+                    ctx.fail(cons, f.loc(u), f"{f.qualname} decodes from `{A.resolve_local_chain(f.node, u.args[0])[:90] if u.args else ''}`, "
+                             f"which is not (a slice of) the bytes it was given: padding or joining makes up "
+                             f"octets the peer never sent, so a message cut inside an AVP's data is no longer "
+                             f"rejected and the decoded AVPs occupy more bytes than were supplied",
+                             expected="Unpacker(<parameter or self.payload, possibly sliced>)",
+                             observed=ast.unparse(u)[:120])
+    if n_up < 4:
+        ctx.error(f"only {n_up} Unpacker construction sites found in the message package (expected >= 4)")
+
     # ---------------- R4 tolerant attribute assignment ------------------------
     ctx.rule("C04-R4", "assign_attr_from_defs reads scalar AVP values inside try/except "
                        "AvpDecodeError", floor=2)
